@@ -148,7 +148,8 @@ func checkC06(c *Ctx) {
 	if pf := newParserFacts(c); pf.err == nil {
 		ruleFieldCorrespondenceFor(c, pf, tomlLeaves(c), "R6.6", func(dest string) bool { return dest == "Analog.Bidirectional" })
 	}
-	c.importRules(configIntactRules, []string{"R3.7"}, "R6.12") // deadzones, flip and axis mappings are read from an unmodified copy of the parsed configuration
+	c.importRules(configIntactRules, []string{"R3.7"}, "R6.12")    // deadzones, flip and axis mappings are read from an unmodified copy of the parsed configuration
+	c.importRules(emulationReachRules, []string{"R8.9b"}, "R6.14") // every new position of a controller / pitch-bend axis reaches the transfer function (only the repeated value and the CC-learning filter may drop it): a jitter or rate filter leaves the receiver with a stale value
 	c.MinCount("R6.6", 3)
 	ruleDispatch(c, dv, "R6.8", false, true) // every axis position reaches the transfer function
 	ruleFlipAfterDeadzone(c, dv, "R6.7")
@@ -1006,4 +1007,105 @@ func ruleShiftOnlyUnsigned(c *Ctx, dv *dev, rule string) {
 		return
 	}
 	c.Check(bad == "", rule, "device.handleABSEvent/centre-shift-only-on-unsigned-axes", pos, fmt.Sprintf("%d centre shift(s) 2v-1, each guarded by a condition that implies minimum >= 0", n), bad)
+
+	// R6.13 the unsigned flip `1 - v` mirrors a position in [0,1]; it is applied only where the position is known to be in
+	// that range: the axis is unsigned (minimum >= 0) AND the centre shift, which moves the position to [-1,1], was not
+	// applied on the way.  The second part can only be known through a flag that is set where the shift is applied
+	// (canBeNegative): a test of the sign of the range alone does not say it.
+	shiftBlocks := map[*ssa.BasicBlock]bool{}
+	var flips []*ssa.BinOp
+	vwFn := NewFnView(c.P, fn)
+	for _, b := range fn.Blocks {
+		for _, in := range b.Instrs {
+			bo, ok := in.(*ssa.BinOp)
+			if !ok || bo.Op != token.SUB {
+				continue
+			}
+			if bt, isB := bo.Type().Underlying().(*types.Basic); !isB || bt.Info()&types.IsFloat == 0 {
+				continue
+			}
+			if mul, ok := bo.X.(*ssa.BinOp); ok && isConstF(bo.Y, 1) && mul.Op == token.MUL && (isConstF(mul.X, 2) || isConstF(mul.Y, 2)) {
+				shiftBlocks[b] = true
+				continue
+			}
+			if isConstF(bo.X, 1) {
+				if _, yConst := bo.Y.(*ssa.Const); yConst {
+					continue
+				}
+				// 1 - deadzone: used as a divisor only
+				divisorOnly := len(*bo.Referrers()) > 0
+				for _, r := range *bo.Referrers() {
+					if q, ok := r.(*ssa.BinOp); !ok || q.Op != token.QUO || q.Y != ssa.Value(bo) {
+						divisorOnly = false
+					}
+				}
+				if divisorOnly {
+					continue
+				}
+				flips = append(flips, bo)
+			}
+		}
+	}
+	reachesFromShift := func(p *ssa.BasicBlock) bool {
+		for s := range shiftBlocks {
+			if s == p || reaches(s, p, nil) {
+				return true
+			}
+		}
+		return false
+	}
+	var noShift func(v ssa.Value, want bool, depth int) bool
+	noShift = func(v ssa.Value, want bool, depth int) bool {
+		if depth > 8 {
+			return false
+		}
+		switch x := v.(type) {
+		case *ssa.UnOp:
+			if x.Op == token.NOT {
+				return noShift(x.X, !want, depth+1)
+			}
+		case *ssa.Phi:
+			for i, e := range x.Edges {
+				if k, ok := e.(*ssa.Const); ok && k.Value != nil && k.Value.Kind() == constant.Bool && constant.BoolVal(k.Value) != want {
+					continue // this edge cannot deliver the wanted value
+				}
+				if reachesFromShift(x.Block().Preds[i]) {
+					return false
+				}
+			}
+			return true
+		}
+		return false
+	}
+	flipBad := ""
+	for _, fl := range flips {
+		// only flips that the shift can precede
+		relevant := false
+		for s := range shiftBlocks {
+			if reaches(s, fl.Block(), nil) {
+				relevant = true
+			}
+		}
+		if !relevant {
+			continue
+		}
+		unsignedOK, noShiftOK := false, false
+		for _, a := range vwFn.GuardsAt(fl.Block()) {
+			if a.Instr == nil {
+				continue
+			}
+			if implies(a.Instr.Cond, a.Taken, 0) {
+				unsignedOK = true
+			}
+			if noShift(a.Instr.Cond, a.Taken, 0) {
+				noShiftOK = true
+			}
+		}
+		if !(unsignedOK && noShiftOK) && flipBad == "" {
+			flipBad = fmt.Sprintf("the unsigned flip 1 - v at %s is not guarded by a condition that excludes the centre shift (unsigned range known: %v, centre shift excluded: %v): an unsigned axis with deadzone_at_center works in [-1,1] after the shift, 1 - v then yields [0,2] - controller bytes above 127, wrapped pitch bend, misplaced end stops", c.P.Pos(fl.Pos()), unsignedOK, noShiftOK)
+		}
+	}
+	if len(flips) > 0 {
+		c.Check(flipBad == "", "R6.13", "device.handleABSEvent/unsigned-flip-only-on-an-unshifted-unsigned-position", pos, fmt.Sprintf("%d flip site(s) of the form 1 - v checked", len(flips)), flipBad)
+	}
 }
